@@ -21,6 +21,10 @@ def plan(tier, seed):
         jobs.append(j)
     jobs.append(ch("C14", F, "h_many_fast_parsed", t, ["util.metadata_from_many (footer-gathering path)",
                                                           "util._get_fmd"]))
+    envc = dict(VERIF_ENC="dict", VERIF_OUT="cat", VERIF_OPTIONAL=0, VERIF_WIDTH=8, VERIF_SELFMADE=1)
+    for h in ("h_cat_two_groups", "h_cat_two_groups_rest"):
+        jobs.append(ch("C14", "vf/pyshim/h_v2.py", h, t, ["core.read_col (dictionary page of each row group; shared "
+                                                          "categorical output)"], env=envc))
     from . import cats
     jobs += cats.jobs("C14", tier)
     jobs.append(ch("C14", "vf/pyshim/h_open.py", "h_open_directory", t,
